@@ -18,6 +18,38 @@ def H(name, oblig, kind='proof', bound='', tier='quick', witness_for=None, funct
 HOOK_COMMITS = ['3254cbd2', '27e1b456', '140569c3', '6e63a402']
 
 PROPS = {
+    'C06': dict(
+        title='Implicit Variant conversion never changes a numeric value',
+        level='proof',
+        level_text='Complete proof by Kani/CBMC: one loop-free harness per numeric source type with the value (all bit patterns, incl. NaN/inf for floats) and the numeric target type symbolic; asserts on the real Variant::convert / Variant::cast: result has the target type or is empty, denotes the same number (integers compared in i128, float targets equal to the IEEE nearest), no result when out of range, widening conversions succeed, casts from floating point return a nearest integer and no result exactly when the rounded value is out of range or the value is not finite',
+        level_note='Trusted: CBMC IEEE-754 semantics for `as` casts and floor/ceil. The regex/uuid/chrono parsers and format! reachable from the string arms of convert/cast are stubbed (Kani cannot compile regex_automata); they are not on a numeric path. String -> number conversions (from_str) are not under contract.',
+        technique='Kani function-level contract harnesses over kani::any inputs on the real crate, loop-free => unbounded',
+        kani=[
+            H('c06::c06_convert_i8', 'C06.convert.i8', functions=['lib/src/types/variant.rs:Variant::convert']),
+            H('c06::c06_cast_i8', 'C06.cast.i8', functions=['lib/src/types/variant.rs:Variant::cast']),
+            H('c06::c06_convert_u8', 'C06.convert.u8', functions=['lib/src/types/variant.rs:Variant::convert']),
+            H('c06::c06_cast_u8', 'C06.cast.u8', functions=['lib/src/types/variant.rs:Variant::cast']),
+            H('c06::c06_convert_i16', 'C06.convert.i16', functions=['lib/src/types/variant.rs:Variant::convert']),
+            H('c06::c06_cast_i16', 'C06.cast.i16', functions=['lib/src/types/variant.rs:Variant::cast']),
+            H('c06::c06_convert_u16', 'C06.convert.u16', functions=['lib/src/types/variant.rs:Variant::convert']),
+            H('c06::c06_cast_u16', 'C06.cast.u16', functions=['lib/src/types/variant.rs:Variant::cast']),
+            H('c06::c06_convert_i32', 'C06.convert.i32', functions=['lib/src/types/variant.rs:Variant::convert']),
+            H('c06::c06_cast_i32', 'C06.cast.i32', functions=['lib/src/types/variant.rs:Variant::cast']),
+            H('c06::c06_convert_u32', 'C06.convert.u32', functions=['lib/src/types/variant.rs:Variant::convert']),
+            H('c06::c06_cast_u32', 'C06.cast.u32', functions=['lib/src/types/variant.rs:Variant::cast']),
+            H('c06::c06_convert_i64', 'C06.convert.i64', functions=['lib/src/types/variant.rs:Variant::convert']),
+            H('c06::c06_cast_i64', 'C06.cast.i64', functions=['lib/src/types/variant.rs:Variant::cast']),
+            H('c06::c06_convert_u64', 'C06.convert.u64', functions=['lib/src/types/variant.rs:Variant::convert']),
+            H('c06::c06_cast_u64', 'C06.cast.u64', functions=['lib/src/types/variant.rs:Variant::cast']),
+            H('c06::c06_convert_bool', 'C06.convert.bool', functions=['lib/src/types/variant.rs:Variant::convert']),
+            H('c06::c06_convert_float', 'C06.convert.float', functions=['lib/src/types/variant.rs:Variant::convert']),
+            H('c06::c06_convert_double', 'C06.convert.double', functions=['lib/src/types/variant.rs:Variant::convert']),
+            H('c06::c06_cast_float', 'C06.cast.float', functions=['lib/src/types/variant.rs:Variant::cast']),
+            H('c06::c06_cast_double', 'C06.cast.double', functions=['lib/src/types/variant.rs:Variant::cast']),
+        ],
+        kani_budget={'quick': 300, 'thorough': 900},
+        explanation='loop-free full-domain harnesses: complete proofs per source type',
+    ),
     'C07': dict(
         title='Any message survives chunking and channel security unchanged',
         level='proof',
@@ -31,6 +63,16 @@ PROPS = {
             H('c07::c07_kf_overshoot_witness', 'C07.kf.overshoot', kind='bounded', bound='one concrete input (witness of a known finding)', witness_for='C07.chunk_overshoot'),
         ],
         explanation='size/structure half of C07 for symmetric chunks',
+    ),
+    'C13': dict(
+        title='Channel keys are derived per the specification and agree on both ends',
+        level='proof',
+        level_text='Deductive proof (Verus, all nonce lengths, all policies) modulo HMAC: the real hash::p_sha loop computes RFC 5246 P_hash (loop invariant + termination), SecurityPolicy::prf / make_secure_channel_keys slice it at the Part 6 offsets with the Part 7 key lengths written independently in the spec, SecureChannel::derive_keys assigns (secret, seed) per Part 6 table 33, and two channels with swapped nonces derive matching local/remote key triples (lemma)',
+        level_note='HMAC is an uninterpreted function (OpenSSL assumed deterministic with fixed output length); collision resistance ("different nonces give different keys") is not claimed. Axiom added: iterating &Vec<T> yields its elements (no vstd spec for Extend<&T>). Ghost code is spliced at anchors; executable text is verbatim.',
+        technique='Verus contracts + loop invariant + inductive lemmas on mechanically extracted real functions',
+        verus=['c13_keys'],
+        kani=[],
+        explanation='p_sha, prf, make_secure_channel_keys, derive_keys under contract against RFC 5246 / Part 6 spec functions',
     ),
     'C22': dict(
         title='Keep-alives keep flowing and idle subscriptions expire on time',
